@@ -3,6 +3,7 @@ open.c and links the whole library with the allocator interposed) against the ex
 Err/StatusModel.v; every returned (status, message-present) pair is also judged by the
 extracted contract StatusModel.status_msg_ok (engine "errmsg-statusspec")."""
 from .. import core
+from .. import hangaware
 
 NOPROBE = 0xffffffff
 DOC = list(range(0, 10))
@@ -82,7 +83,7 @@ def judge(run, exe, cases, model, impl, crashes):
 
 def run_cases(run, exe, cases):
     model = core.run_model("errmsg-status", run.casefile("status-cases.txt", cases))
-    impl, crashes = core.run_impl_lines(exe, run.work, cases)
+    impl, crashes = hangaware.run_lines(exe, run.work, cases)
     return model, impl, crashes
 
 
